@@ -10,6 +10,7 @@ import (
 	"go/types"
 	"sort"
 	"strconv"
+	"sync/atomic"
 
 	"golang.org/x/tools/go/ast/astutil"
 	"golang.org/x/tools/go/packages"
@@ -35,6 +36,9 @@ import (
 // their arguments are side-effect free. Anything the inliner is not sure about
 // is left as a call. The result is type-checked again; if that fails the
 // normal form is discarded and the original verdict stands.
+
+// inlineSeq numbers expansion sites across rounds (labels and temporaries must stay unique).
+var inlineSeq int64
 
 type inliner struct {
 	p        *Program
@@ -68,7 +72,20 @@ func NormaliseOverlay(p *Program, keep func(*types.Func) bool) (map[string][]byt
 			}
 		}
 	}
+	sroa := false
 	for _, pk := range p.Pkgs {
+		for _, f := range pk.Syntax {
+			for _, d := range f.Decls {
+				if fd, ok := d.(*ast.FuncDecl); ok && fd.Body != nil && in.sroaFunc(pk, f, fd) {
+					sroa = true
+				}
+			}
+		}
+	}
+	for _, pk := range p.Pkgs {
+		if sroa {
+			break // the rewritten selectors carry no type information: expand helpers in the next round
+		}
 		for _, f := range pk.Syntax {
 			for _, d := range f.Decls {
 				fd, ok := d.(*ast.FuncDecl)
@@ -77,6 +94,7 @@ func NormaliseOverlay(p *Program, keep func(*types.Func) bool) (map[string][]byt
 				}
 				in.stripFailClosedRecover(pk, f, fd)
 				in.rewriteBlock(pk, f, fd, fd.Body)
+				simplifyAddrDeref(fd.Body)
 			}
 		}
 	}
@@ -110,8 +128,28 @@ func NormaliseOverlay(p *Program, keep func(*types.Func) bool) (map[string][]byt
 			}
 		}
 	}
+	// expanded bodies are clones without type information: a helper is dead only
+	// if, in addition, no identifier with its name is left outside its declaration
+	nameLeft := map[string]int{}
+	for _, pk := range p.Pkgs {
+		for _, f := range pk.Syntax {
+			ast.Inspect(f, func(n ast.Node) bool {
+				if id, ok := n.(*ast.Ident); ok {
+					nameLeft[id.Name]++
+				}
+				return true
+			})
+		}
+	}
 	for fn, fd := range in.bodies {
-		if n := in.expanded[fn]; n > 0 && n == uses[fn] {
+		own := 0
+		ast.Inspect(fd, func(n ast.Node) bool {
+			if id, ok := n.(*ast.Ident); ok && id.Name == fn.Name() {
+				own++
+			}
+			return true
+		})
+		if n := in.expanded[fn]; n > 0 && n == uses[fn] && nameLeft[fn.Name()] == own {
 			for f, pk := range in.filePkg {
 				if pk != in.pkgOf[fn] {
 					continue
@@ -248,6 +286,20 @@ func (in *inliner) rewriteList(pk *packages.Package, file *ast.File, encl *ast.F
 				in.rewriteBlock(pk, file, encl, f.Body)
 			}
 		}
+		// `x := f(a)` with f an expression-bodied helper and pure arguments: substitute the expression
+		if as, isAs := st.(*ast.AssignStmt); isAs && len(as.Rhs) == 1 && len(as.Lhs) == 1 {
+			if call, isCall := as.Rhs[0].(*ast.CallExpr); isCall {
+				if fd, elig := in.eligible(calleeOf(pk.TypesInfo, call), pk); elig && len(fd.Body.List) == 1 {
+					if ret, isRet := fd.Body.List[0].(*ast.ReturnStmt); isRet && len(ret.Results) == 1 {
+						in.substituteExprCalls(pk, file, encl, st)
+						if as.Rhs[0] != ast.Expr(call) {
+							out = append(out, st)
+							continue
+						}
+					}
+				}
+			}
+		}
 		if repl, ok := in.expandStmt(pk, file, encl, st); ok {
 			out = append(out, repl...)
 			continue
@@ -269,7 +321,7 @@ func (in *inliner) rewriteList(pk *packages.Package, file *ast.File, encl *ast.F
 			}
 			if call, isCall := cond.(*ast.CallExpr); isCall {
 				if fd, elig := in.eligible(calleeOf(pk.TypesInfo, call), pk); elig && fd != nil && len(fd.Body.List) != 1 {
-					in.counter++
+					in.counter = int(atomic.AddInt64(&inlineSeq, 1))
 					tmp := ast.NewIdent("inlc" + strconv.Itoa(in.counter))
 					asg := &ast.AssignStmt{Lhs: []ast.Expr{tmp}, Tok: token.DEFINE, Rhs: []ast.Expr{call}}
 					if repl, ok := in.expandStmt(pk, file, encl, asg); ok {
@@ -370,7 +422,7 @@ func (in *inliner) expandStmt(pk *packages.Package, file *ast.File, encl *ast.Fu
 	if !in.sameBindings(pk, fd, call) {
 		return nil, false
 	}
-	in.counter++
+	in.counter = int(atomic.AddInt64(&inlineSeq, 1))
 	id := in.counter
 	label := ast.NewIdent("inl" + strconv.Itoa(id))
 	var pre []ast.Stmt
@@ -406,9 +458,29 @@ func (in *inliner) expandStmt(pk *packages.Package, file *ast.File, encl *ast.Fu
 			return
 		}
 		obj := calleeInfo.Defs[param]
-		if simpleArg(arg) && obj != nil && readOnlyParam(calleeInfo, fd.Body, obj) {
+		if simpleArg(arg) && obj != nil && readOnlyParam(calleeInfo, fd.Body, obj) && !declaresName(calleeInfo, fd.Body, arg) {
 			subst[obj] = arg
 			return
+		}
+		// a pointer parameter that is never re-pointed, bound to a local pointer
+		// variable or to &local: the callee works on the caller's variable either
+		// way, so the parameter is substituted rather than aliased (this is what
+		// lets a cursor/accumulator struct be split into scalars afterwards)
+		if obj != nil {
+			if _, isPtr := obj.Type().Underlying().(*types.Pointer); isPtr && stablePointerParam(calleeInfo, fd.Body, obj) {
+				switch a := arg.(type) {
+				case *ast.Ident:
+					if a.Name != "_" && !declaresName(calleeInfo, fd.Body, a) && in.localNeverReassigned(info, encl, a) {
+						subst[obj] = a
+						return
+					}
+				case *ast.UnaryExpr:
+					if id, isID := a.X.(*ast.Ident); isID && a.Op == token.AND && !declaresName(calleeInfo, fd.Body, id) && isLocalVar(info, id) {
+						subst[obj] = &ast.ParenExpr{X: a}
+						return
+					}
+				}
+			}
 		}
 		names = append(names, ast.NewIdent(param.Name))
 		vals = append(vals, arg)
@@ -627,7 +699,7 @@ func (in *inliner) hoistFirstCall(pk *packages.Package, file *ast.File, encl *as
 			return nil, false // expression-bodied: substituteExprCalls handles it
 		}
 	}
-	in.counter++
+	in.counter = int(atomic.AddInt64(&inlineSeq, 1))
 	tmp := "inlh" + strconv.Itoa(in.counter)
 	asg := &ast.AssignStmt{Lhs: []ast.Expr{ast.NewIdent(tmp)}, Tok: token.DEFINE, Rhs: []ast.Expr{first}}
 	// replace the call by the temporary
@@ -762,7 +834,9 @@ func (in *inliner) substituteExprCalls(pk *packages.Package, file *ast.File, enc
 				origIDs = append(origIDs, id)
 			}
 			if u, ok := n.(*ast.UnaryExpr); ok && u.Op == token.AND {
-				bad = true
+				if _, isLit := u.X.(*ast.CompositeLit); !isLit {
+					bad = true
+				}
 			}
 			if _, ok := n.(*ast.FuncLit); ok {
 				bad = true
@@ -1245,4 +1319,412 @@ func (in *inliner) stripFailClosedRecover(pk *packages.Package, file *ast.File, 
 	in.changed[file] = true
 	in.inlined["fail-closed-recover-wrapper("+fd.Name.Name+")"]++
 	return true
+}
+
+// declaresName: the body declares (or the callee's parameters include) an
+// object with the same name as the identifier e, so substituting e into the
+// body could be captured.
+func declaresName(info *types.Info, body *ast.BlockStmt, e ast.Expr) bool {
+	id, ok := e.(*ast.Ident)
+	if !ok {
+		return false
+	}
+	found := false
+	ast.Inspect(body, func(n ast.Node) bool {
+		if x, ok := n.(*ast.Ident); ok && x.Name == id.Name && info.Defs[x] != nil {
+			found = true
+		}
+		return true
+	})
+	return found
+}
+
+// stablePointerParam: the pointer parameter is never assigned, its own address
+// is never taken and it is not captured by a closure.
+func stablePointerParam(info *types.Info, body *ast.BlockStmt, param types.Object) bool {
+	ok := true
+	is := func(e ast.Expr) bool {
+		for {
+			if p, isP := e.(*ast.ParenExpr); isP {
+				e = p.X
+				continue
+			}
+			break
+		}
+		id, isID := e.(*ast.Ident)
+		return isID && info.Uses[id] == param
+	}
+	ast.Inspect(body, func(n ast.Node) bool {
+		switch x := n.(type) {
+		case *ast.AssignStmt:
+			for _, l := range x.Lhs {
+				if is(l) {
+					ok = false
+				}
+			}
+		case *ast.IncDecStmt:
+			if is(x.X) {
+				ok = false
+			}
+		case *ast.UnaryExpr:
+			if x.Op == token.AND && is(x.X) {
+				ok = false
+			}
+		case *ast.RangeStmt:
+			if x.Key != nil && is(x.Key) || x.Value != nil && is(x.Value) {
+				ok = false
+			}
+		case *ast.FuncLit:
+			ast.Inspect(x, func(m ast.Node) bool {
+				if id, isID := m.(*ast.Ident); isID && info.Uses[id] == param {
+					ok = false
+				}
+				return true
+			})
+		}
+		return true
+	})
+	return ok
+}
+
+func isLocalVar(info *types.Info, id *ast.Ident) bool {
+	v, ok := info.Uses[id].(*types.Var)
+	return ok && !v.IsField() && v.Parent() != nil && v.Pkg() != nil && v.Parent() != v.Pkg().Scope()
+}
+
+// localNeverReassigned: id is a local variable of encl that is defined once and never assigned again.
+func (in *inliner) localNeverReassigned(info *types.Info, encl *ast.FuncDecl, id *ast.Ident) bool {
+	if encl == nil || !isLocalVar(info, id) {
+		return false
+	}
+	obj := info.Uses[id]
+	ok := true
+	ast.Inspect(encl.Body, func(n ast.Node) bool {
+		switch x := n.(type) {
+		case *ast.AssignStmt:
+			if x.Tok != token.DEFINE {
+				for _, l := range x.Lhs {
+					if li, isID := l.(*ast.Ident); isID && info.Uses[li] == obj {
+						ok = false
+					}
+				}
+			}
+		case *ast.IncDecStmt:
+			if li, isID := x.X.(*ast.Ident); isID && info.Uses[li] == obj {
+				ok = false
+			}
+		case *ast.UnaryExpr:
+			if li, isID := x.X.(*ast.Ident); isID && x.Op == token.AND && info.Uses[li] == obj {
+				ok = false
+			}
+		}
+		return true
+	})
+	return ok
+}
+
+// ---------------------------------------------------------------------------
+// Scalar replacement of local aggregates (source level).
+//
+// A local variable `x := T{...}`, `x := &T{...}` or `var x T` of a struct type
+// all of whose uses in the function are direct field selections `x.f` (never
+// the whole value, never a method call, never inside a function literal) is the
+// same program as one local variable per field. After helper expansion this
+// turns a cursor/accumulator/parameter-bundle struct back into the plain
+// locals the shape rules read.
+
+func (in *inliner) sroaFunc(pk *packages.Package, file *ast.File, fd *ast.FuncDecl) bool {
+	info := pk.TypesInfo
+	changed := false
+	type cand struct {
+		obj    *types.Var
+		st     *types.Struct
+		define ast.Stmt
+		lit    *ast.CompositeLit // nil for `var x T`
+	}
+	var cands []*cand
+	litOf := func(e ast.Expr) *ast.CompositeLit {
+		unparen := func(e ast.Expr) ast.Expr {
+			for {
+				p, ok := e.(*ast.ParenExpr)
+				if !ok {
+					return e
+				}
+				e = p.X
+			}
+		}
+		e = unparen(e)
+		if u, ok := e.(*ast.UnaryExpr); ok && u.Op == token.AND {
+			e = unparen(u.X)
+		}
+		cl, _ := e.(*ast.CompositeLit)
+		return cl
+	}
+	structOf := func(t types.Type) *types.Struct {
+		if p, ok := t.Underlying().(*types.Pointer); ok {
+			t = p.Elem()
+		}
+		n, ok := t.(*types.Named)
+		if !ok || n.Obj().Pkg() == nil || !isModulePath(n.Obj().Pkg().Path()) {
+			return nil
+		}
+		st, _ := n.Underlying().(*types.Struct)
+		return st
+	}
+	inLit := 0
+	ast.Inspect(fd.Body, func(n ast.Node) bool {
+		switch x := n.(type) {
+		case *ast.FuncLit:
+			_ = x
+			return false
+		case *ast.AssignStmt:
+			if x.Tok == token.DEFINE && len(x.Lhs) == 1 && len(x.Rhs) == 1 {
+				id, ok := x.Lhs[0].(*ast.Ident)
+				cl := litOf(x.Rhs[0])
+				if ok && cl != nil {
+					if v, isVar := info.Defs[id].(*types.Var); isVar {
+						if st := structOf(v.Type()); st != nil && st.NumFields() > 0 {
+							cands = append(cands, &cand{v, st, x, cl})
+						}
+					}
+				}
+			}
+		case *ast.DeclStmt:
+			if gd, ok := x.Decl.(*ast.GenDecl); ok && gd.Tok == token.VAR && len(gd.Specs) == 1 {
+				vs := gd.Specs[0].(*ast.ValueSpec)
+				if len(vs.Names) == 1 && len(vs.Values) == 0 {
+					if v, isVar := info.Defs[vs.Names[0]].(*types.Var); isVar {
+						if _, isPtr := v.Type().Underlying().(*types.Pointer); !isPtr {
+							if st := structOf(v.Type()); st != nil && st.NumFields() > 0 {
+								cands = append(cands, &cand{v, st, x, nil})
+							}
+						}
+					}
+				}
+			}
+		}
+		return true
+	})
+	_ = inLit
+	names := map[string]bool{}
+	ast.Inspect(fd, func(n ast.Node) bool {
+		if id, ok := n.(*ast.Ident); ok {
+			names[id.Name] = true
+		}
+		return true
+	})
+	qual := func(other *types.Package) string {
+		if other == pk.Types {
+			return ""
+		}
+		astutil.AddImport(in.p.Fset, file, other.Path())
+		return other.Name()
+	}
+	for _, c := range cands {
+		// every use is x.f with f a direct field, outside function literals
+		okUse := true
+		uses := map[*ast.SelectorExpr]int{} // selector -> field index
+		var walk func(n ast.Node, inFuncLit bool)
+		parentSel := map[*ast.Ident]*ast.SelectorExpr{}
+		ast.Inspect(fd.Body, func(n ast.Node) bool {
+			if sel, ok := n.(*ast.SelectorExpr); ok {
+				if id, isID := sel.X.(*ast.Ident); isID {
+					parentSel[id] = sel
+				}
+			}
+			return true
+		})
+		walk = func(n ast.Node, inFuncLit bool) {
+			ast.Inspect(n, func(m ast.Node) bool {
+				switch x := m.(type) {
+				case *ast.FuncLit:
+					if !inFuncLit {
+						walk(x.Body, true)
+						return false
+					}
+				case *ast.Ident:
+					if info.Uses[x] != types.Object(c.obj) {
+						return true
+					}
+					sel := parentSel[x]
+					if sel == nil || inFuncLit {
+						okUse = false
+						return true
+					}
+					s := info.Selections[sel]
+					if s == nil || s.Kind() != types.FieldVal || len(s.Index()) != 1 {
+						okUse = false
+						return true
+					}
+					uses[sel] = s.Index()[0]
+				}
+				return true
+			})
+		}
+		walk(fd.Body, false)
+		if !okUse {
+			continue
+		}
+		// the literal: keyed by field names, or positional and complete, or empty
+		vals := make([]ast.Expr, c.st.NumFields())
+		var order []int
+		if c.lit != nil {
+			bad := false
+			for i, el := range c.lit.Elts {
+				if kv, ok := el.(*ast.KeyValueExpr); ok {
+					k, isID := kv.Key.(*ast.Ident)
+					if !isID {
+						bad = true
+						break
+					}
+					idx := -1
+					for fi := 0; fi < c.st.NumFields(); fi++ {
+						if c.st.Field(fi).Name() == k.Name {
+							idx = fi
+						}
+					}
+					if idx < 0 || vals[idx] != nil {
+						bad = true
+						break
+					}
+					vals[idx] = kv.Value
+					order = append(order, idx)
+				} else {
+					if len(c.lit.Elts) != c.st.NumFields() {
+						bad = true
+						break
+					}
+					vals[i] = el
+					order = append(order, i)
+				}
+			}
+			if bad {
+				continue
+			}
+		}
+		fname := make([]string, c.st.NumFields())
+		okNames := true
+		for fi := 0; fi < c.st.NumFields(); fi++ {
+			if c.st.Field(fi).Embedded() {
+				okNames = false
+			}
+			n := c.obj.Name() + "_" + c.st.Field(fi).Name()
+			for names[n] {
+				n += "_"
+			}
+			names[n] = true
+			fname[fi] = n
+		}
+		if !okNames {
+			continue
+		}
+		var repl []ast.Stmt
+		done := map[int]bool{}
+		okT := true
+		for _, fi := range order {
+			repl = append(repl, &ast.AssignStmt{Lhs: []ast.Expr{ast.NewIdent(fname[fi])}, Tok: token.DEFINE, Rhs: []ast.Expr{vals[fi]}})
+			done[fi] = true
+		}
+		for fi := 0; fi < c.st.NumFields(); fi++ {
+			if done[fi] {
+				// an untyped constant in the literal takes the field's type, not its default type
+				if tv, ok := info.Types[vals[fi]]; ok && tv.Value != nil || isNilIdent(info, vals[fi]) {
+					texpr, err := typeExpr(types.TypeString(c.st.Field(fi).Type(), qual))
+					if err != nil {
+						okT = false
+						break
+					}
+					for i, st := range repl {
+						if as, isAs := st.(*ast.AssignStmt); isAs && as.Lhs[0].(*ast.Ident).Name == fname[fi] {
+							repl[i] = &ast.DeclStmt{Decl: &ast.GenDecl{Tok: token.VAR, Specs: []ast.Spec{&ast.ValueSpec{Names: []*ast.Ident{ast.NewIdent(fname[fi])}, Type: texpr, Values: []ast.Expr{vals[fi]}}}}}
+						}
+					}
+				}
+				continue
+			}
+			texpr, err := typeExpr(types.TypeString(c.st.Field(fi).Type(), qual))
+			if err != nil {
+				okT = false
+				break
+			}
+			repl = append(repl, &ast.DeclStmt{Decl: &ast.GenDecl{Tok: token.VAR, Specs: []ast.Spec{&ast.ValueSpec{Names: []*ast.Ident{ast.NewIdent(fname[fi])}, Type: texpr}}}})
+		}
+		if !okT {
+			continue
+		}
+		for fi := 0; fi < c.st.NumFields(); fi++ {
+			repl = append(repl, &ast.AssignStmt{Lhs: []ast.Expr{ast.NewIdent("_")}, Tok: token.ASSIGN, Rhs: []ast.Expr{ast.NewIdent(fname[fi])}})
+		}
+		replaced := false
+		astutil.Apply(fd.Body, func(cu *astutil.Cursor) bool {
+			switch x := cu.Node().(type) {
+			case *ast.SelectorExpr:
+				if fi, ok := uses[x]; ok {
+					cu.Replace(ast.NewIdent(fname[fi]))
+					return false
+				}
+			case ast.Stmt:
+				if x == c.define && cu.Index() >= 0 {
+					cu.Replace(repl[0])
+					for i := len(repl) - 1; i >= 1; i-- {
+						cu.InsertAfter(repl[i])
+					}
+					replaced = true
+					return false
+				}
+			}
+			return true
+		}, nil)
+		if !replaced {
+			// the definition is not an element of a statement list (e.g. an init clause): give up on the whole file
+			return false
+		}
+		changed = true
+		in.inlined["scalar-replacement("+fd.Name.Name+"."+c.obj.Name()+")"]++
+		// one aggregate per function per round: selector bookkeeping refers to the old tree
+		break
+	}
+	if changed {
+		in.changed[file] = true
+	}
+	return changed
+}
+
+func isNilIdent(info *types.Info, e ast.Expr) bool {
+	id, ok := e.(*ast.Ident)
+	if !ok {
+		return false
+	}
+	_, isNil := info.Uses[id].(*types.Nil)
+	return isNil
+}
+
+// simplifyAddrDeref rewrites (&x).f -> x.f and *(&x) -> x (left behind by pointer-parameter substitution).
+func simplifyAddrDeref(n ast.Node) {
+	strip := func(e ast.Expr) ast.Expr {
+		for {
+			p, ok := e.(*ast.ParenExpr)
+			if !ok {
+				return e
+			}
+			e = p.X
+		}
+	}
+	astutil.Apply(n, nil, func(c *astutil.Cursor) bool {
+		switch x := c.Node().(type) {
+		case *ast.SelectorExpr:
+			if u, ok := strip(x.X).(*ast.UnaryExpr); ok && u.Op == token.AND {
+				if id, isID := u.X.(*ast.Ident); isID {
+					x.X = id
+				}
+			}
+		case *ast.StarExpr:
+			if u, ok := strip(x.X).(*ast.UnaryExpr); ok && u.Op == token.AND {
+				if id, isID := u.X.(*ast.Ident); isID {
+					c.Replace(id)
+				}
+			}
+		}
+		return true
+	})
 }
